@@ -4,6 +4,7 @@
   arm64_codegenerator.rs / patch_arm64.rs (Generated/Consts.lean); `decode`/`exec` are the
   independent ISA fragment of Model/A64.lean.
 -/
+import InjModel.Generated.Layout
 import InjModel.Lemmas.A64
 namespace Inj.Props
 open Inj Inj.A64 Inj.Generated
@@ -80,6 +81,10 @@ example : entryLinux 0x200000000 0x208000000 = Res.panic "JIT memory is out of b
 example : (tramp 0x1122334455667788).map decode =
     [Instr.movz 9 0x7788 0, Instr.movk 9 0x5566 1, Instr.movk 9 0x3344 2, Instr.movk 9 0x1122 3, Instr.br 9] := by decide
 
+/-- the model's state is complete for the back ends: `injector_core` declares no process-wide or
+    thread-local mutable state (regenerated from the source on every run) -/
+theorem C15_state_modelled : Generated.Layout.coreStatics = [] := by decide
+
 end Inj.Props
 
 #print axioms Inj.Props.C15_consts_found
@@ -90,3 +95,4 @@ end Inj.Props
 #print axioms Inj.Props.C15_entry_macos_near
 #print axioms Inj.Props.C15_entry_macos_far
 #print axioms Inj.Props.C15_macos_alloc_range
+#print axioms Inj.Props.C15_state_modelled
